@@ -2,11 +2,11 @@
 import glob, json, os, shutil
 import vlib
 
-TARGETS = ["Base/Corr.vo", "C15/Model.vo", "C15/ModelBuf.vo", "C15/ModelCH.vo", "C15/Corr.vo", "C15/CorrCH.vo", "C15/Spec.vo", "C15/SpecTest.vo",
+TARGETS = ["Base/Corr.vo", "C15/Model.vo", "C15/ModelBuf.vo", "C15/ModelCH.vo", "C15/ModelSet.vo", "C15/Corr.vo", "C15/CorrCH.vo", "C15/Spec.vo", "C15/SpecTest.vo",
            "C15/ProofsSum.vo", "C15/ProofsFwd.vo", "C15/ProofsBwd.vo", "C15/ProofsBuf.vo", "C15/ProofsOpt.vo", "C15/ProofsVit.vo",
            "C15/ProofsVitInst.vo", "C15/ProofsMix.vo", "C15/ProofsLog.vo", "C15/ProofsTop.vo", "C15/ProofsPost.vo", "C15/ProofsBW.vo", "C15/ProofsTop2.vo",
-           "C15/Proofs.vo", "C15/Props.vo", "C15/ProofsCH.vo", "C15/PropsCH.vo"]
-PROPS = ["C15/Props.v", "C15/PropsCH.v"]
+           "C15/Proofs.vo", "C15/Props.vo", "C15/ProofsCH.vo", "C15/PropsCH.vo", "C15/ProofsSet.vo", "C15/ProofsSet2.vo", "C15/PropsSet.vo"]
+PROPS = ["C15/Props.v", "C15/PropsCH.v", "C15/PropsSet.v"]
 PARTIAL = ("Theorems are about the hand-written semiring-polymorphic models coq/C15/Model.v (pure functions), "
            "coq/C15/ModelBuf.v (forward/backward/float64 copies, Posterior and one Baum-Welch step of a thread as state "
            "transformers on work buffers with arbitrary prior content) and coq/C15/ModelCH.v (constrained / hierarchical "
@@ -20,7 +20,13 @@ PARTIAL = ("Theorems are about the hand-written semiring-polymorphic models coq/
            "leaf blocks only (inner nodes: per case, exact). Baum-Welch: expected counts of ONE thread; merging threads is "
            "C17, the emission M-step C16; hmm1.normalize is executed and compared, no theorem. matrixDistribution.Hmm / "
            "ShapeHmm share generic.Hmm's inference code and differ only in the emission table, over which the theorems "
-           "quantify; the vectorClassifier front-ends are not exercised.")
+           "quantify; the vectorClassifier front-ends are not exercised. Setter histories (coq/C15/ModelSet.v): generic.Hmm / "
+           "vectorDistribution.Hmm under SetStartStates / SetFinalStates / SetParameters / Clone in any order and number; "
+           "the invariant Tf = normalise-final(current Tr, current final states) is proved for every history; Pi is not "
+           "derived state (SetParameters stores it raw: F-C15-SETPARAMS-START, refuted on the model); SetParameters on a "
+           "constrained / hierarchical HMM panics in the unchanged library (F-C15-SETPARAMS-UNCOMPARABLE), so for those "
+           "only constructor + one SetStartStates / SetFinalStates are modelled; ImportConfig and the Baum-Welch "
+           "re-normalisation as history steps are not modelled (the latter is compared per case, kind bw).")
 # genuine quirks of the unchanged library, matched narrowly (id, site, fixed witness evaluated by the harness)
 KNOWN_IDS = {
     "F-C15-TF-SELFLOOP": "statistics/generic/hmm_utility.go:126 (HmmTransitionMatrix.Normalize via Hmm.normalizeTf): a state without "
@@ -33,6 +39,10 @@ KNOWN_IDS = {
                               "entries, NewHhmmTransitionMatrix / NewHierarchicalHmm return no error",
     "F-C15-CHMM-FINAL-TIE": "statistics/generic/constrainedHmm.go:199-201 (normalize(lambda) via Hmm.normalizeTf / SetFinalStates): a constraint "
                             "group spanning a final and a non-final column re-creates the masked transition in Tf",
+    "F-C15-SETPARAMS-START": "statistics/generic/hmm.go:660 (Hmm.SetParameters): Pi.Set(parameters) overwrites the Pi that SetStartStates "
+                             "masked, without re-applying the start-state restriction (Tf, by contrast, is re-derived)",
+    "F-C15-SETPARAMS-UNCOMPARABLE": "statistics/generic/hmm.go:661 (Hmm.SetParameters): obj.Tr == obj.Tf compares interface values holding "
+                                    "ChmmTransitionMatrix / HhmmTransitionMatrix (structs with slices): run-time panic on every constrained / hierarchical HMM",
 }
 HOOK_SRC = os.path.join(vlib.ROOT, "harness", "c15", "hook", "verif_c15.go.txt")
 
@@ -112,8 +122,9 @@ def run(ctx):
     ok, failures = vlib.proof_stage(ctx, TARGETS, PROPS)
     thms = vlib.theorem_names(os.path.join(vlib.COQ, "C15/Props.v"))
     thms2 = vlib.theorem_names(os.path.join(vlib.COQ, "C15/PropsCH.v"))
+    thms3 = vlib.theorem_names(os.path.join(vlib.COQ, "C15/PropsSet.v"))
     if ok:
-        ctx.cov["print_assumptions"] = vlib.print_assumptions("C15", [("C15.Props", thms), ("C15.PropsCH", thms2)], ctx.dir)
+        ctx.cov["print_assumptions"] = vlib.print_assumptions("C15", [("C15.Props", thms), ("C15.PropsCH", thms2), ("C15.PropsSet", thms3)], ctx.dir)
     binary, blog = vlib.build_harness("c15")
     if binary is None:
         ctx.violation({"obligation": "build of harness/c15 against the library", "log": blog[-3000:]}, False,
